@@ -426,6 +426,9 @@ func (e *Exec) flushPending() {
 			return
 		}
 		p := e.pending[idx]
+		if os.Getenv("GOSMT_DEBUG") != "" {
+			fmt.Fprintf(os.Stderr, "  pending assertion %s fails: cond=%s\n", p.label, p.cond.String())
+		}
 		e.x.nVerdict++
 		if !e.x.violKeys[p.key] {
 			e.x.violKeys[p.key] = true
